@@ -13,38 +13,83 @@ Proof. reflexivity. Qed.
 Lemma lang_node_sentinel cl n : sentinel n -> lang_node cl n = [([], 0)].
 Proof. intros (H1 & H2 & H3). unfold lang_node. rewrite H1, H2, H3. reflexivity. Qed.
 
+Lemma compile_geom0 b n b' r :
+  r_rows (b_reg b) * r_cols (b_reg b) = 0 -> compile b n = (b', r) -> b_reg b' = b_reg b.
+Proof.
+  intros Hg Hc. unfold compile in Hc.
+  destruct (n_final n && _ && _); [inversion Hc; reflexivity|].
+  unfold reg_entry in Hc. rewrite Hg in Hc. change (0 =? 0) with true in Hc. cbv iota in Hc.
+  destruct (compile_node _ _ _ n); inversion Hc; reflexivity.
+Qed.
+
+Lemma compile_log_nosent b n x : In x (BuilderBasics.compile_log b n) -> ~ is_sentinel (snd x).
+Proof.
+  unfold BuilderBasics.compile_log. destruct (BuilderBasics.trivial_node n) eqn:Ht; [intros []|].
+  assert (Hn : ~ is_sentinel n).
+  { intros (H1 & H2 & H3). unfold BuilderBasics.trivial_node in Ht. rewrite H1, H2, H3 in Ht. discriminate. }
+  destruct (snd (reg_entry (b_reg b) n)); [intros []| |];
+    (destruct (snd (compile b n)); [intros [<-|[]]; exact Hn|intros []|intros []]).
+Qed.
+
+Lemma Ginv_step zg b n b' a E E' :
+  compile b n = (b', Ok a) -> a <> NONE_ADDRESS ->
+  strip E' = BuilderBasics.compile_log b n ++ strip E ->
+  Ginv zg b E -> Ginv zg b' E'.
+Proof.
+  intros Hc Hna Hstrip (G1 & G2). split.
+  - rewrite Hstrip. apply Forall_app. split; [|exact G1]. apply Forall_forall. intros x Hx.
+    eapply compile_log_nosent; eauto.
+  - destruct zg.
+    + rewrite (compile_geom0 b n b' _ G2 Hc). exact G2.
+    + rewrite Hstrip. destruct (BuilderBasics.compile_ok b n b' a Hc) as (_ & _ & _ & HH).
+      apply (HH _ G2). exact Hna.
+Qed.
+
 Section Main.
 Hypothesis Hcodec : codec_statement.
 Hypothesis Htotal : compile_total_statement.
 Variable ty : N.
+Variable ver : N.
+Variable zg : bool.
+Hypothesis Hver : 1 <= ver <= 3.
 
 (* compile, as seen from the stack: the returned address denotes the requested node *)
 Lemma compile_ok2 E b n b' r :
-  minv ty E b -> node_ok E n ->
+  minv ver ty E b -> node_ok E n ->
   NODE_MAX * (len E + 1) + 100 < U64 ->
   compile b n = (b', r) ->
-  exists E' a, r = Ok a /\ minv ty E' b' /\
+  exists E' a, r = Ok a /\ minv ver ty E' b' /\
     b_stack b' = b_stack b /\ b_last b' = b_last b /\ b_len b' = b_len b /\
     ext1 E E' /\ len E' <= len E + 1 /\ tgt_ok E' a /\ a <> NONE_ADDRESS /\
     elang E' a = lang_node (elang E) n /\
     (forall x, In x (n_trans n) -> t_addr x <= a) /\
     (forall a0, In a0 (addrs E') -> In a0 (addrs E) \/ a0 = a) /\
     (E' = E \/ exists s, E' = (a, s) :: E /\ bn_of s = n) /\
-    (bbytes b -> bbytes b').
+    (bbytes b -> bbytes b') /\
+    ((a = 0 /\ n_trans n = []) \/ exists s, In (a, s) E' /\ bn_of s = n) /\
+    (Ginv zg b E -> Ginv zg b' E').
 Proof.
   intros Hm Hn Hsz Hc.
-  pose proof (compile_bbytes ty E b n b' r Hm Hn Hsz Hc) as Hbb.
-  destruct (compile_ok Hcodec Htotal ty E b n b' r Hm Hn Hsz Hc)
-    as (E' & a & Hr & Hm' & F1 & F2 & F3 & Hcase).
+  pose proof (compile_bbytes ver ty E b n b' r Hm Hn Hsz Hc) as Hbb.
+  destruct (compile_ok Hcodec Htotal ver ty E b n b' r Hver Hm Hn Hsz Hc)
+    as (E' & a & Hr & Hm' & F1 & F2 & F3 & Hcase & Hstrip).
   assert (Hstr : E' = E \/ exists s, E' = (a, s) :: E /\ bn_of s = n).
   { destruct Hcase as [(-> & _)|(s & -> & Hs)]; [left; reflexivity|right; exists s; auto]. }
+  assert (Hnode : (a = 0 /\ n_trans n = []) \/ exists s, In (a, s) E' /\ bn_of s = n).
+  { destruct Hcase as [(-> & [(-> & _ & Hnt & _)|(s & Hin & Hs)])|(s & -> & Hs)]; [left; auto|right; eauto|].
+    right. exists s. split; [left; reflexivity|exact Hs]. }
+  assert (Hna0 : a <> NONE_ADDRESS).
+  { destruct Hnode as [(-> & _)|(s & Hin & _)]; [rewrite none_address_1; lia|].
+    destruct Hm' as (HE' & _). destruct (store_in_node_ok _ _ _ HE' Hin) as (_ & _ & H16). rewrite none_address_1. lia. }
+  assert (HG : Ginv zg b E -> Ginv zg b' E').
+  { subst r. apply (Ginv_step zg b n b' a E E'); auto. }
   exists E', a. split; [exact Hr|]. split; [exact Hm'|]. do 3 (split; [assumption|]).
   cut (ext1 E E' /\ len E' <= len E + 1 /\ tgt_ok E' a /\ a <> NONE_ADDRESS /\
        elang E' a = lang_node (elang E) n /\
        (forall x, In x (n_trans n) -> t_addr x <= a) /\
        (forall a0, In a0 (addrs E') -> In a0 (addrs E) \/ a0 = a)).
   { intros X. decompose [and] X. splits; auto. }
-  clear Hstr Hbb.
+  clear Hstr Hbb Hnode HG Hna0 Hstrip.
   destruct Hm as (HE & _). destruct Hm' as (HE' & _).
   destruct Hcase as [(-> & [(-> & Hs)|(s & Hin & Hs)])|(s & -> & Hs)].
   - split; [left; reflexivity|]. split; [lia|]. split; [left; reflexivity|].
@@ -69,7 +114,7 @@ Definition vtop (u : unf) (addr : option N) : unf :=
   match addr with None => u | Some a => mkUnf (freeze u a) None end.
 
 Lemma node_ok_top E lo t k L : sinv E (lo ++ [t]) k L -> u_last t = None -> node_ok E (u_node t).
-Proof.
+Proof. clear Hver.
   intros [Hs Hu HW _ _] Ht.
   destruct (shape_app_inv lo [t] k Hs) as (Hlo & _); [discriminate|].
   apply Forall_app in Hu. destruct Hu as (_ & Hu). inversion Hu as [|? ? Hu1 _]; subst.
@@ -81,7 +126,7 @@ Qed.
 
 Lemma shape_two lo p t k : shape (lo ++ [p; t]) k ->
   lasts lo (firstn (length lo) k) /\ exists c o, u_last p = Some (c, o) /\ u_last t = None.
-Proof.
+Proof. clear Hver.
   intros Hs. destruct (shape_app_inv lo [p; t] k Hs) as (Hlo & Hpt); [discriminate|]. split; [exact Hlo|].
   destruct (skipn (length lo) k) as [|c [|c2 k2]]; cbn [shape] in Hpt.
   - destruct Hpt as (_ & X); discriminate.
@@ -91,23 +136,23 @@ Qed.
 
 Lemma Cpost_top_Fro cl lo p t k q v : shape (lo ++ [p; t]) k -> (q <= length lo)%nat ->
   Cpost cl (lo ++ [p; t]) [] q v -> Fro cl (u_node t).
-Proof.
+Proof. clear Hver.
   intros Hs Hq HC. destruct (shape_two _ _ _ _ Hs) as (Hlo & c & o & Hp & Ht).
   apply (Cpost_app _ lo _ _ _ _ _ Hlo Hq) in HC. destruct HC as (_ & HC).
   cbn [Cpost] in HC. rewrite Hp in HC. tauto.
 Qed.
 
 Lemma trimmed_freeze p c o a : u_last p = Some (c, o) -> trimmed (freeze p a).
-Proof. intros H. right. unfold freeze. rewrite H. cbn [n_trans]. destruct (n_trans (u_node p)); discriminate. Qed.
+Proof. clear Hver. intros H. right. unfold freeze. rewrite H. cbn [n_trans]. destruct (n_trans (u_node p)); discriminate. Qed.
 
 Lemma cfr_ok : forall rest u b addr E k L keep b' r,
-  minv ty E b ->
+  minv ver ty E b ->
   sinv E (rev rest ++ [vtop u addr]) k L ->
   (addr = None -> u_last u = None) ->
   NODE_MAX * (len E + len (u :: rest)) + 100 < U64 ->
   strim E -> bbytes b -> ((keep < length rest)%nat -> trimmed (u_node (vtop u addr))) ->
   compile_from_rev b (u :: rest) keep addr = (b', r) ->
-  exists E' rst, r = Ok rst /\ minv ty E' b' /\ b_last b' = b_last b /\ b_len b' = b_len b /\
+  exists E' rst, r = Ok rst /\ minv ver ty E' b' /\ b_last b' = b_last b /\ b_len b' = b_len b /\
     len E' + len rst <= len E + len (u :: rest) /\
     sinv E' (rev rst) (firstn keep k) L /\
     (((length rest <= keep)%nat /\ rst = vtop u addr :: rest /\ E' = E) \/
@@ -115,7 +160,8 @@ Lemma cfr_ok : forall rest u b addr E k L keep b' r,
           rev rst = lo ++ [mkUnf (freeze p a) None])) /\
     strim E' /\ bbytes b' /\
     (forall v, cgood E -> Cpost (elang E) (rev rest ++ [vtop u addr]) [] keep v ->
-               cgood E' /\ Cpost (elang E') (rev rst) [] keep v).
+               cgood E' /\ Cpost (elang E') (rev rst) [] keep v) /\
+    (Ginv zg b E -> Rinv E (rev rest ++ [vtop u addr]) -> Ginv zg b' E' /\ Rinv E' (rev rst)).
 Proof.
   induction rest as [|p rest IH]; intros u b addr E k L keep b' r Hm Hs Hnone Hsz Htrim Hbb Htt Hc.
   - (* nothing to pop *)
@@ -145,7 +191,7 @@ Proof.
       destruct (shape_two _ _ _ _ (s_shape _ _ _ _ Hs)) as (_ & c0 & o0 & Hp0 & _).
       destruct (compile b (u_node (vtop u addr))) as [b1 r1] eqn:Hc1.
       destruct (compile_ok2 E b _ b1 r1 Hm Hnok) as
-        (E1 & a1 & -> & Hm1 & F1 & F2 & F3 & Hext & Hlen & Htg & Hna & Hla & Hle & Hnew & Hstr & Hbb1); auto.
+        (E1 & a1 & -> & Hm1 & F1 & F2 & F3 & Hext & Hlen & Htg & Hna & Hla & Hle & Hnew & Hstr & Hbb1 & Hnode1 & HG1); auto.
       { unfold len in *. cbn [length] in Hsz. lia. }
       destruct (N.eqb_spec a1 NONE_ADDRESS) as [X|_]; [contradiction|].
       destruct Hm1 as (HE1 & Hm1').
@@ -155,7 +201,7 @@ Proof.
       { destruct Hstr as [->|(s & -> & Hsn)]; [exact Htrim|]. cbn [strim]. split; [exact Htrim|].
         rewrite Hsn. apply Htt. cbn [length] in Hlt |- *. lia. }
       destruct (IH p b1 (Some a1) E1 (firstn (length rest) k) L keep b' r) as
-        (E' & rst & Hr & Hm' & G1 & G2 & Glen & Gs & Gcase & Gtrim & Gbb & GC); auto.
+        (E' & rst & Hr & Hm' & G1 & G2 & Glen & Gs & Gcase & Gtrim & Gbb & GC & GGR); auto.
       { split; auto. }
       { discriminate. }
       { unfold len, NODE_MAX in *. cbn [length] in *. lia. }
@@ -175,6 +221,9 @@ Proof.
         -- destruct Hstr as [->|(s & -> & Hsn)]; [exact Hcg|]. cbn [cgood]. split; [exact Hcg|].
            rewrite Hsn. eapply Cpost_top_Fro; eauto. exact (s_shape _ _ _ _ Hs).
         -- cbn [vtop]. eapply pop_step_C; eauto.
+      * intros HG HR. cbn [rev] in HR. rewrite <- app_assoc in HR. cbn [app] in HR.
+        apply GGR; [apply HG1; exact HG|]. cbn [vtop].
+        eapply pop_step_R; eauto.
     + assert (Hlt : Nat.ltb (S keep) (length (u :: p :: rest)) = false) by (apply Nat.ltb_ge; lia).
       cbn [length] in Hge.
       assert (Hv : (match addr with
@@ -190,7 +239,7 @@ Qed.
 
 Lemma minv_frame E b b2 :
   b_out b2 = b_out b -> b_count b2 = b_count b -> b_reg b2 = b_reg b -> b_last_addr b2 = b_last_addr b ->
-  b_version b2 = b_version b -> minv ty E b -> minv ty E b2.
+  b_version b2 = b_version b -> minv ver ty E b -> minv ver ty E b2.
 Proof.
   intros H1 H2 H3 H4 H5 (HE & [B1 B2 B3 B4 B5 B6] & HR). split; [exact HE|]. split.
   - constructor; unfold body in *; rewrite ?H1, ?H2, ?H4, ?H5; auto.
@@ -198,7 +247,7 @@ Proof.
 Qed.
 
 Lemma shape_top st k : shape st k -> exists lo t, st = lo ++ [t] /\ u_last t = None /\ lasts lo k.
-Proof.
+Proof. clear Hver.
   revert k; induction st as [|u st IH]; intros k; cbn [shape]; [tauto|].
   destruct k as [|c k].
   - intros (Hu & ->). exists [], u. cbn. auto.
@@ -206,14 +255,14 @@ Proof.
 Qed.
 
 Lemma bbytes_frame b b2 : b_out b2 = b_out b -> bbytes b -> bbytes b2.
-Proof. unfold bbytes, body. intros ->. auto. Qed.
+Proof. clear Hver. unfold bbytes, body. intros ->. auto. Qed.
 
 Lemma compile_from_ok E b k L keep b' r :
-  minv ty E b -> sinv E (b_stack b) k L ->
+  minv ver ty E b -> sinv E (b_stack b) k L ->
   NODE_MAX * (len E + len (b_stack b)) + 100 < U64 ->
   strim E -> bbytes b -> top_final (b_stack b) ->
   compile_from b keep = (b', r) ->
-  exists E', r = Ok tt /\ minv ty E' b' /\ b_last b' = b_last b /\ b_len b' = b_len b /\
+  exists E', r = Ok tt /\ minv ver ty E' b' /\ b_last b' = b_last b /\ b_len b' = b_len b /\
     len E' + len (b_stack b') <= len E + len (b_stack b) /\
     sinv E' (b_stack b') (firstn keep k) L /\
     (((length k <= keep)%nat /\ b_stack b' = b_stack b /\ E' = E) \/
@@ -221,7 +270,8 @@ Lemma compile_from_ok E b k L keep b' r :
           b_stack b' = lo ++ [mkUnf (freeze p a) None])) /\
     strim E' /\ bbytes b' /\
     (forall v, cgood E -> Cpost (elang E) (b_stack b) [] keep v ->
-               cgood E' /\ Cpost (elang E') (b_stack b') [] keep v).
+               cgood E' /\ Cpost (elang E') (b_stack b') [] keep v) /\
+    (Ginv zg b E -> Rinv E (b_stack b) -> Ginv zg b' E' /\ Rinv E' (b_stack b')).
 Proof.
   intros Hm Hs Hsz Htrim Hbb Htf Hc. unfold compile_from in Hc.
   destruct (shape_top _ _ (s_shape _ _ _ _ Hs)) as (lo0 & t & Hst & Ht & Hlo0).
@@ -229,7 +279,7 @@ Proof.
   rewrite Hst, rev_app_distr in Hc. cbn [rev app] in Hc.
   destruct (compile_from_rev b (t :: rev lo0) keep None) as [b1 r1] eqn:Hc1.
   destruct (cfr_ok (rev lo0) t b None E k L keep b1 r1) as
-    (E' & rst & -> & Hm' & G1 & G2 & Glen & Gs & Gcase & Gtrim & Gbb & GC); auto.
+    (E' & rst & -> & Hm' & G1 & G2 & Glen & Gs & Gcase & Gtrim & Gbb & GC & GGR); auto.
   { cbn [vtop]. rewrite rev_involutive, <- Hst. exact Hs. }
   { rewrite Hst in Hsz. unfold len in *. rewrite app_length in Hsz. cbn [length] in *. rewrite rev_length. lia. }
   { rewrite rev_length. intros Hk. cbn [vtop]. destruct (Htf t) as [X|X].
@@ -246,6 +296,9 @@ Proof.
     + right. split; [lia|]. rewrite rev_involutive in Grev. exists lo, p, (hi ++ [t]), a.
       rewrite Hst, Grev, <- app_assoc. splits; auto.
   - intros v Hcg HC. apply GC; auto. cbn [vtop]. rewrite rev_involutive, <- Hst. exact HC.
+  - intros HG HR.
+    assert (HR' : Rinv E (rev (rev lo0) ++ [vtop t None])) by (cbn [vtop]; rewrite rev_involutive, <- Hst; exact HR).
+    destruct (GGR HG HR') as (A & B). split; [exact A|exact B].
 Qed.
 
 (* ---------- order facts about the common prefix ---------- *)
@@ -255,7 +308,7 @@ Lemma cpl_spec : forall k bs, lex_cmp bs k <> Lt ->
   (cpl k bs = length bs -> bs = k) /\
   ((cpl k bs < length bs)%nat -> (cpl k bs < length k)%nat ->
      exists c b k2 bs2, skipn (cpl k bs) k = c :: k2 /\ skipn (cpl k bs) bs = b :: bs2 /\ c < b).
-Proof.
+Proof. clear Hver.
   induction k as [|c k IH]; intros [|b bs] Hcmp; cbn [cpl lex_cmp firstn length] in *.
   - splits; auto; lia.
   - splits; auto; try lia; discriminate.
@@ -272,10 +325,10 @@ Proof.
 Qed.
 
 Lemma cpl_refl k : cpl k k = length k.
-Proof. induction k as [|c k IH]; cbn [cpl length]; [reflexivity|]. rewrite N.eqb_refl, IH. reflexivity. Qed.
+Proof. clear Hver. induction k as [|c k IH]; cbn [cpl length]; [reflexivity|]. rewrite N.eqb_refl, IH. reflexivity. Qed.
 
 Lemma skipn_cons_length {A} n (l : list A) : (n < length l)%nat -> exists x r, skipn n l = x :: r.
-Proof.
+Proof. clear Hver.
   revert l; induction n as [|n IH]; intros [|y l] H; cbn [length skipn] in *; try lia; eauto.
   apply IH. lia.
 Qed.
